@@ -48,7 +48,7 @@ CFG = {
         rule="distinct scenarios whose run completed with >=1 poll and >=1 search step (every target/constraint call and the final log judged)",
     ),
     "C02": dict(
-        profile=dict(name="c02", cons_p=1.0, x0_w=[8, 1, 1, 0], x0_infeasible_p=0.12, x0_nearcons_p=0.15,
+        profile=dict(name="c02", cons_p=1.0, x0_w=[8, 1, 1, 0], x0_infeasible_p=0.1, x0_nearcons_p=0.12, x0_infeasible_near_p=0.12,
                      geom_w=[3, 3, 2, 3, 3, 1, 1, 1], where_w=[3, 2, 2, 3], noise_w=[4, 1, 2, 2],
                      knobs=dict(n_search=0.5)),
         n=dict(quick=128, thorough=4000),
@@ -59,7 +59,7 @@ CFG = {
     "C03": dict(
         profile=dict(name="c03", fam_w=[3, 1, 1, 1, 1, 0, 7], budget_kinds=["tiny", "small", "small", "mid", "mid", "large"],
                      knobs=dict(max_iter=0.4, tol_mesh=0.5, complete_poll=0.3, accelerate_mesh=0.4, tol_stall_iters=0.3),
-                     noise_w=[5, 1, 2, 2], cons_p=0.25, cons_w=[2, 2, 2, 2, 1, 3], geom_w=[3, 3, 2, 2, 2, 2, 3, 1]),
+                     noise_w=[5, 1, 2, 2], cons_p=0.3, cons_w=[2, 2, 2, 2, 1, 2, 4], geom_w=[4, 4, 2, 2, 2, 2, 2, 1]),
         n=dict(quick=160, thorough=6000), hang_is_violation=True,
         nontrivial=lambda r: r["outcome"] == "completed" and r["loop_iters"] >= 1,
         rule="distinct scenarios whose run terminated normally after >=1 main-loop iteration (budget, counters, non-progress bound and message judged)",
@@ -82,7 +82,7 @@ CFG = {
         profile=dict(name="c09", budget_kinds=["tiny", "tiny", "small", "small", "mid"], budget_min=4, noisy_budget_min=4,
                      knobs=dict(max_iter=0.35, cache_size=0.6, n_search=0.6, fun_eval_start=0.4, n_train=0.4,
                                 noise_final_samples=0.7, tol_mesh=0.3, noise_size=0.3),
-                     fam_w=[4, 2, 2, 2, 1, 1, 3], cons_p=0.4, cons_w=[2, 2, 3, 2, 1, 3], noise_w=[3, 2, 3, 3]),
+                     fam_w=[4, 2, 2, 2, 1, 1, 3], cons_p=0.4, cons_w=[2, 2, 3, 2, 1, 3, 2], noise_w=[3, 2, 3, 3]),
         n=dict(quick=192, thorough=10000), faulted=0.3, fault_kinds=["predict", "fit1"],
         nontrivial=lambda r: r["outcome"] in ("completed", "exception", "ctor_crash"),
         rule="distinct valid scenarios that were constructed and run to an outcome (completed or crashed)",
@@ -116,7 +116,7 @@ CFG = {
         rule="distinct scenarios completed with >=3 candidate-filter calls, every output judged",
     ),
     "C18": dict(
-        profile=dict(name="c18", knobs=dict(n_search=0.75), cons_p=0.45, cons_w=[2, 2, 3, 2, 1, 3],
+        profile=dict(name="c18", knobs=dict(n_search=0.75), cons_p=0.45, cons_w=[2, 2, 3, 2, 1, 3, 1],
                      fam_w=[5, 2, 1, 1, 1, 1, 3], budget_kinds=["small", "mid", "mid"]),
         n=dict(quick=128, thorough=4000),
         nontrivial=lambda r: r["outcome"] == "completed" and r["es_calls"] >= 2,
